@@ -44,6 +44,11 @@ PATTERNS = {
     'dashes': (r'^(# --- .+ ---)$', '# --- section %d ---'),
     'percent': (r'^(#% .*)$', '#%% cell %d'),
     'cellnl': (r'^(#@ .*\n)', '#@ cell %d'),        # the separator's group includes its own newline
+    # patterns as an instructor writes them without thinking of re.split: the group is only a part of the marker
+    # (the form set_source's documentation shows), there is no group, there are two
+    'inner': (r'^##### Part (\d+)$', '##### Part %d'),
+    'nogroup': (r'^#@ cell \d+$', '#@ cell %d'),
+    'twogroups': (r'^(#) --- (section \d+) ---$', '# --- section %d ---'),
 }
 STATEMENTS = ['a%d = %d', 'print(%d + %d)', 'b%d = [%d]', "s%d = 'v%d'", 'c%d = a0 if False else %d', 'print("row", %d, %d)',
               'd%d = {"k": %d}', 'e%d = %d * 2', "t%d = 'a\x0bb%d'", "u%d = %d  # note\u2028still the same line"]
@@ -82,7 +87,7 @@ def gen_chunk(r, idx, n_lines):
 def build(seed, tier):
     st = seeds.streams(seed)
     r, ro, rf = st[seeds.PROGRAM], st[seeds.OPS], st[seeds.FAULTS]
-    pname = r.choice(['default', 'default', 'dashes', 'percent', 'cellnl'])
+    pname = r.choice(['default', 'default', 'dashes', 'percent', 'cellnl', 'default', 'dashes', 'inner', 'nogroup', 'twogroups'])
     nl_in_marker = pname == 'cellnl'
     funcs = {}
     pattern, marker_t = PATTERNS[pname]
